@@ -7,7 +7,7 @@
 From Coq Require Import String.
 From Coq Require Import List Ascii ZArith Bool.
 From CGV Require Import Base.PyBase Base.PyVal Base.NxGraph Gen.HydroGen Hydro.Hydrogens Hydro.HydroDefs
-     Hydro.HydrogensProofs Hydro.SquashDefs Hydro.RebuildProofs Hydro.Aromatic Hydro.AromaticProofs Hydro.AromaticOrders Hydro.AromaticClosed.
+     Hydro.HydrogensProofs Hydro.SquashDefs Hydro.RebuildProofs Hydro.Aromatic Hydro.AromaticProofs Hydro.AromaticOrders Hydro.AromaticClosed Hydro.KeepBonding.
 Import ListNotations.
 Open Scope Z_scope.
 
@@ -237,6 +237,31 @@ Example C09_aromatic_model_closed_nonvacuous :
              g1 = car_closed [(0, 1); (2, 3); (4, 5)] [0; 1; 2; 3; 4; 5] (ring_edges [0; 1; 2; 3; 4; 5]) benzene.
 Proof. exact car_model_closed_nonvacuous. Qed.
 
+(** keep_bonding=True (never used by the resolver or the sampler; compared per run through direct calls): the extra
+    phase between fill_valence and add_explicit_hydrogens, for every graph with distinct keys.  A node WITH descriptors
+    has its hydrogen count lowered by the sum of the last characters of its descriptors read as digits; every other
+    node, every other attribute, the bonds and the key order are untouched.  PARTIAL: not composed with the
+    end-to-end theorem, which is stated for keep_bonding=False. *)
+Theorem C09_keep_bonding_phase_partial : forall g g', NoDup (node_keys g) ->
+  fold_res keep_bonding_step (get_node_attributes g (S "bonding")) g = Ok g' ->
+  node_keys g' = node_keys g /\
+  forall i n, gfind i g = Some n ->
+    match aget (S "bonding") (na n) with
+    | None => gfind i g' = Some n
+    | Some ops => exists s h hz, kb_sum ops = Ok s /\ aget (S "hcount") (na n) = Some h /\ as_int h = Ok hz /\
+                                 gfind i g' = Some (lowered n (hz - s))
+    end.
+Proof. exact keep_bonding_phase. Qed.
+
+Example C09_keep_bonding_phase_nonvacuous :
+  let g := [{| nk := 0; na := [(S "element", VStr (S "C")); (S "hcount", VInt 3);
+                               (S "bonding", VList [VStr (S "$1"); VStr (S ">1"); VStr (S "$a2")])]; nadj := [] |};
+            {| nk := 1; na := [(S "element", VStr (S "C")); (S "hcount", VInt 3)]; nadj := [] |}] in
+  NoDup (node_keys g) /\
+  exists g', fold_res keep_bonding_step (get_node_attributes g (S "bonding")) g = Ok g' /\
+             node_get g' 0 (S "hcount") = Some (VInt (-1)) /\ node_get g' 1 (S "hcount") = Some (VInt 3).
+Proof. exact keep_bonding_phase_nonvacuous. Qed.
+
 (** non-vacuity: benzene as a fragment writes it (all aromatic, all 1.5) is kekulised and marked again; without a
     marked ring the kekulised state stays; a non-matching, an extendable matching and a non-alternating ring are
     rejected; an odd ring that cannot be kekulised raises SyntaxError exactly when strict *)
@@ -274,3 +299,4 @@ Print Assumptions C09_rebuild_valence_exact_model.
 Print Assumptions C09_aromatic_model_orders.
 Print Assumptions C09_aromatic_model_closed.
 Print Assumptions C09_aromatic_model_order_irrelevant.
+Print Assumptions C09_keep_bonding_phase_partial.
